@@ -12,7 +12,7 @@ ACT = {"NONE": 0, "RELU": 1, "RELU_N1_TO_1": 2, "RELU6": 3}
 EXACT_OPS = ["conv", "conv", "conv", "dw", "fc", "maxpool", "avgpool_valid", "add", "add", "sub", "mul", "relu", "relu6", "reshape", "concat", "pad", "quantize",
              "sslice", "split", "maximum", "minimum", "add_const", "mul_const", "padconv"]
 APPROX_TAIL_OPS = ["avgpool_same", "logistic", "tanh", "hswish", "lrelu", "softmax", "mean", "resize_nearest", "resize_bilinear", "abs", "tconv"]
-CPU_OPS = ["custom", "dequant_quant", "float_chain", "gather", "tile", "argmax_tail"]
+CPU_OPS = ["custom", "dequant_quant", "float_chain", "gather", "tile", "argmax_tail", "unsupported_conv"]
 
 
 class NB:
